@@ -1836,8 +1836,9 @@ func (p *parser) parseOperand(lhs, allowTuple, allowCmd bool) (x ast.Expr, isTup
 		lparen := p.pos
 		p.next()
 		if allowTuple && p.tok == token.RPAREN { // () => expr
+			rparen := p.pos
 			p.next()
-			return &tupleExpr{opening: lparen, closing: p.pos}, true
+			return &tupleExpr{opening: lparen, closing: rparen}, true
 		}
 		p.exprLev++
 		x = p.parseRHSOrType() // types may be parenthesized: (some type)
@@ -1849,13 +1850,13 @@ func (p *parser) parseOperand(lhs, allowTuple, allowCmd bool) (x ast.Expr, isTup
 				p.next()
 				items = append(items, p.parseRHSOrType())
 			}
-			t := &tupleExpr{opening: lparen, items: items, closing: p.pos}
+			t := &tupleExpr{opening: lparen, items: items}
 			if p.tok == token.ELLIPSIS {
 				t.ellipsis = p.pos
 				p.next()
 			}
 			p.exprLev--
-			p.expect(token.RPAREN)
+			t.closing = p.expect(token.RPAREN)
 			return t, true
 		}
 		p.exprLev--
@@ -2107,7 +2108,18 @@ func (p *parser) parseCallOrConversion(fun ast.Expr, isCmd bool) *ast.CallExpr {
 	p.exprLev--
 	var noParenEnd token.Pos
 	if isCmd {
-		noParenEnd = p.pos
+		// the end of a command-style call is the end of its last argument,
+		// not the position of the token that follows the arguments
+		switch n := len(list); {
+		case rparen != token.NoPos: // f (a, b)
+			noParenEnd = rparen + 1
+		case ellipsis != token.NoPos:
+			noParenEnd = ellipsis + 3 // len("...")
+		case n > 0:
+			noParenEnd = list[n-1].End()
+		default:
+			noParenEnd = p.pos
+		}
 	} else if rparen == token.NoPos {
 		rparen = p.expectClosing(token.RPAREN, "argument list")
 	}
